@@ -90,3 +90,44 @@ func TestFinding_heartbeat_panics_after_tombstone_removed(t *testing.T) {
 		"stores 1,2; RemoveStore(1), checkStores (buried=%v), SetStoreWeight(1,2,2), RemoveTombStoneRecords (errors %v); HandleStoreHeartbeat(store 2): panic=%q",
 		buried, steps, panicked))
 }
+
+// TestFinding_removed_store_served_again_after_leader_round_trip: member A leads and caches
+// store 1 (Up). Leadership moves to member B (A keeps running and keeps its cache — the
+// BasicCluster is created once per process and RaftCluster.Stop does not clear it). On B store 1
+// is removed, buried and its record removed (RemoveTombStoneRecords). Leadership returns to A:
+// RaftCluster.Start -> LoadClusterInfo only puts the stores found in storage into the cache,
+// so A serves store 1 as Up again although storage has no such store.
+func TestFinding_removed_store_served_again_after_leader_round_trip(t *testing.T) {
+	quiet()
+	f, err := newFixture(Case{})
+	if err != nil {
+		t.Fatal(err)
+	}
+	defer func() { f.cancel() }()
+	for id := uint64(1); id <= 2; id++ {
+		if err := f.rc.PutStore(toMeta(mkReq(id, fmt.Sprintf("addr-%d", id), "2.0.0", nil, 0))); err != nil {
+			t.Fatal(err)
+		}
+	}
+	if err := f.handover(); err != nil { // A -> B
+		t.Fatal(err)
+	}
+	steps := []error{f.rc.RemoveStore(1, false)}
+	f.rc.VerifCheckStores()
+	buried := f.rc.GetStore(1).IsTombstone()
+	steps = append(steps, f.rc.RemoveTombStoneRecords())
+	goneOnB := f.rc.GetStore(1) == nil
+	if err := f.handover(); err != nil { // B -> A
+		t.Fatal(err)
+	}
+	served := f.rc.GetStore(1)
+	stored := &metapb.Store{}
+	inStorage, _ := f.oracle.LoadStore(1, stored)
+	state := "not served"
+	if served != nil {
+		state = served.GetState().String()
+	}
+	vkit.Finding(t, KeyStaleDeleted, served != nil && !inStorage, fmt.Sprintf(
+		"member A: stores 1,2 up; handover to B; RemoveStore(1), checkStores (buried=%v), RemoveTombStoneRecords (errors %v, gone on B=%v); handover back to A: store 1 served as %s, record in storage=%v",
+		buried, steps, goneOnB, state, inStorage))
+}
